@@ -5,6 +5,7 @@ import ast
 import copy
 from typing import Dict, List, Optional, Set, Tuple
 
+from ..cfg import CFG
 from ..report import Run
 from ..src import AnalysisError, FuncInfo, Program, call_name, stmt_key, walk_no_nested
 from . import common
@@ -362,6 +363,47 @@ def _compare_services(prog: Program, run: Run) -> None:
             run.violation(R, "Comparison.compare_services", "not-paired-by-position",
                           f"`{ast.unparse(c)}` is not restricted to parameters at the same "
                           "position", f"{f.module.rel}:{c.lineno}")
+            continue
+        # nothing but the lengths of the two lists (and the position test) decides whether the
+        # comparison happens: equal REFERENCES do not mean equal responses when the two services
+        # come from two databases
+        cst = next((s_ for s_ in walk_no_nested(f.node) if isinstance(s_, ast.stmt) and not
+                    isinstance(s_, (ast.If, ast.For, ast.While, ast.With, ast.Try,
+                                    ast.FunctionDef)) and any(z is c for z in ast.walk(s_))), None)
+        foreign = None
+        if cst is not None:
+            ccfg = CFG(f.node)
+            loopvars = {n.id for l in enc for n in ast.walk(l.target)
+                        if isinstance(n, ast.Name)}
+
+            def allowed(t: ast.AST) -> bool:
+                if isinstance(t, ast.BoolOp):
+                    return all(allowed(v) for v in t.values)
+                if isinstance(t, ast.UnaryOp) and isinstance(t.op, ast.Not):
+                    return allowed(t.operand)
+                names = {n.id for n in ast.walk(t) if isinstance(n, ast.Name)}
+                if names and names <= loopvars:
+                    return True  # position / loop-variable tests
+                if isinstance(t, ast.Compare) and len(t.ops) == 1:
+                    if isinstance(t.ops[0], (ast.Is, ast.IsNot)):
+                        return True
+                    sides = [t.left, t.comparators[0]]
+                    if all(isinstance(s_, ast.Call) and call_name(s_) == "len" for s_ in sides):
+                        return True
+                return False
+            for t, pol in ccfg.branch_conditions(ccfg.node_of(cst)):
+                if allowed(t):
+                    continue
+                foreign = (t, pol)
+                break
+        if foreign is not None:
+            run.violation(R, "Comparison.compare_services", "comparison-skipped:" +
+                          ast.unparse(foreign[0])[:50],
+                          f"`{ast.unparse(c)}` only runs when `{ast.unparse(foreign[0])}` is "
+                          f"{foreign[1]}: parameter changes of objects for which that test "
+                          "decides otherwise are never looked at (equal references in two "
+                          "databases still point to different objects)",
+                          f"{f.module.rel}:{c.lineno}", ast.unparse(foreign[0]))
             continue
         for k in kinds:
             if k in ea:
